@@ -8,11 +8,39 @@ import argparse
 import importlib
 import json
 import os
+import random
 import sys
+import time
 import threading
 import traceback
 
 from . import core
+
+
+def escalate(chk, mod):
+    """Source drift: an anchored file of the property is not the one the model was last validated against
+    (anchors.json).  A quiet quick run is then not the end: the correspondence is run again with fresh seeds
+    while a time budget lasts (VERIF_ESCALATE_BUDGET seconds of total run time, default 280), so that a change
+    which needs a rarer input has a better chance to meet it.  On the recorded tree nothing happens."""
+    if chk.thorough or os.environ.get("VERIF_NO_ESCALATE"):
+        return
+    drift = core.source_drift(chk.prop)
+    chk.extra["source_drift"] = drift
+    if not drift:
+        return
+    budget = float(os.environ.get("VERIF_ESCALATE_BUDGET", "280"))
+    rounds, last = 0, time.time() - chk.t0
+    while not chk.failures and (time.time() - chk.t0) + 1.15 * last < budget:
+        rounds += 1
+        t = time.time()
+        if chk.lean is not None:
+            chk.lean.close()
+            chk.lean = None
+        chk.rng = random.Random(chk.seed * 1000003 + 7919 * rounds)
+        chk.round = rounds
+        mod.run(chk)
+        last = time.time() - t
+    chk.extra["escalation_rounds"] = rounds
 
 
 def main():
@@ -48,6 +76,7 @@ def main():
             mod.replay(chk, data)
         else:
             mod.run(chk)
+            escalate(chk, mod)
     except core.LeanError as e:
         chk.fail("broken", "lean-driver", f"model driver failed: {e}", {"error": str(e)})
     except Exception:
